@@ -75,6 +75,51 @@ def pure_and_history_free(opi, shape, cards, shape2, cards2, shape3=None, cards3
     return True
 
 
+def definitions_hold_in_sequence(shape, cards, shape2, cards2) -> bool:
+    """Each model of a sequence is analysed by every operation and compared with its *definition*
+    (the oracles of C13-C17), not only with a fresh operation object: a process-wide cache would make a
+    fresh object wrong in the same way."""
+    from . import c13, c14, c15, c16, c17
+    for sh, cd in ((shape, cards), (shape2, cards2), (shape, cards)):
+        n = R.n_features(sh)
+        if not (c13.exact(sh, cd) and c14.exact(sh, cd) and c15.sound(sh, cd) and c16.ops(sh, cd)):
+            return False
+        if not c17.report_ok(sh, cd, [i % 2 == 1 for i in range(n)], 1):
+            return False
+    return True
+
+
+def replay_sequence(shape, cards, shape2, cards2):
+    shape, shape2 = totuple(shape), totuple(shape2)
+    cards, cards2 = [tuple(c) for c in cards], [tuple(c) for c in cards2]
+    try:
+        ok = definitions_hold_in_sequence(shape, cards, shape2, cards2)
+    except Exception as exc:
+        return ['sequence raises %s: %s' % (type(exc).__name__, exc)]
+    return [] if ok else ['analysing %s %r, then %s %r, then the first again: an operation result differs from its definition (depends on the earlier executions)'
+                          % (R.shape_str(shape), cards, R.shape_str(shape2), cards2)]
+
+
+def batch_sequences(max_n, lo, hi, seed):
+    rnd = _random.Random(seed)
+    shapes = R.shapes(max_n)
+    pairs = [(a, b) for a in shapes for b in shapes if a != b][lo:hi]
+    res = {'instances': 0, 'nontrivial': 0, 'violations': [], 'native_runs': 0}
+    for a, b in pairs:
+        ca = rnd.choice(list(R.all_cards(a))) if R.relations_of(a) else []
+        cb = rnd.choice(list(R.all_cards(b))) if R.relations_of(b) else []
+        res['instances'] += 1
+        res['native_runs'] += 15
+        res['nontrivial'] += 1
+        bad = replay_sequence(a, ca, b, cb)
+        if bad:
+            res['violations'].append({'label': 'sequence-vs-definition', 'detail': bad[0], 'replay_func': 'replay_sequence', 'replay_args': [a, ca, b, cb]})
+            if len(res['violations']) >= 4:
+                return res
+        res['sample'] = {'first': R.shape_str(a), 'second': R.shape_str(b)}
+    return res
+
+
 def replay_history(opi, shape, cards, shape2, cards2, shape3=None, cards3=None):
     shape, shape2 = totuple(shape), totuple(shape2)
     cards, cards2 = [tuple(c) for c in cards], [tuple(c) for c in cards2]
@@ -326,6 +371,19 @@ def conditions(tier, seed):
                               aspect='%s: model unchanged, result independent of the earlier execution' % cls.__name__,
                               sample={'operation': cls.__name__, 'models': [R.shape_str(s), R.shape_str(s2)], 'symbolic': 'all cards of both models'},
                               validate=val))
+    # sequences against the definitions (detects process-wide state that a fresh object would share)
+    for k, (si, s, sj, s2) in enumerate(pairs):
+        p1, pre1, e1 = cards_params(s)
+        r2 = R.relations_of(s2)
+        p2 = ', '.join('c%d: int, d%d: int' % (i, i) for i in range(len(r2)))
+        pre2 = ['0 <= c%d <= d%d <= %d and d%d >= 1' % (i, i, len(cs), i) for i, (p, cs) in enumerate(r2)]
+        e2 = '[' + ', '.join('(c%d, d%d)' % (i, i) for i in range(len(r2))) + ']'
+        imp = imp0 + 'SA_%d = %r\nSB_%d = %r\n' % (si, s, sj, s2)
+        val = [tuple(x for c in R.default_cards(s) for x in c) + tuple(x for c in R.default_cards(s2) for x in c)]
+        conds.append(Cond(name='c19_seq_%d_%d' % (si, sj), imports=imp, params=p1 + ', ' + p2, pre=pre1 + pre2,
+                          body='P.definitions_hold_in_sequence(SA_%d, %s, SB_%d, %s)' % (si, e1, sj, e2), timeout=T * 2,
+                          aspect='A, B, A analysed in one process: every operation result equals its definition',
+                          sample={'models': [R.shape_str(s), R.shape_str(s2)], 'symbolic': 'all cards of both models'}, validate=val))
     # random attribute generation
     gshapes = [(si, s) for si, s in small if R.n_features(s) >= 2]
     for form in ['elements', 'int', 'int2', 'mixed', 'float', 'empty']:
@@ -346,6 +404,10 @@ def batches(tier, seed):
     N = 4 if tier == 'quick' else 5
     per = 12 if tier == 'quick' else 80
     b = [('batch_history', [N, seed * 13 + i, per]) for i in range(8)]
+    n = 3 if tier == 'quick' else 4
+    total = len(R.shapes(n)) * (len(R.shapes(n)) - 1)
+    step = total // 4 + 1
+    b += [('batch_sequences', [n, lo, lo + step, seed + lo]) for lo in range(0, total, step)]
     b += [('batch_gen_native', [N, seed * 17 + i, 60 if tier == 'quick' else 600]) for i in range(4)]
     return b
 
